@@ -58,6 +58,7 @@ def input_short(program, inp):
 def objs_source():
     return '''
 import taskchain as _tc
+from pathlib import Path as _Path
 from taskchain.parameter import ParameterObject as _PO, AutoParameterObject as _APO
 from tcv.runtime import stable_repr as _sr, _c, RT as _RT
 
@@ -76,9 +77,14 @@ class Oa(_PO):
 
 class Ob(_APO):
     def __init__(self, k, w=5, verbose=False):
-        self.k = k
+        self._k = k
         self._w = w
         self.verbose = verbose
+
+    @property
+    def k(self):
+        # a public, converted VIEW of the argument kept verbatim in self._k (e.g. a path string offered as a Path)
+        return _Path(self._k) if isinstance(self._k, str) and '/' in self._k else self._k
 
     @staticmethod
     def dont_persist_default_value_args():
@@ -90,7 +96,7 @@ class Ob(_APO):
         return self._w // 2 * 2 if isinstance(self._w, int) and not isinstance(self._w, bool) else self._w
 
     def tcv_canon(self):
-        return ['Ob', _c(self.k), _c(self._w)]
+        return ['Ob', _c(self._k), _c(self._w)]
 
 
 class Oc(_APO):
